@@ -326,7 +326,7 @@ def known_nonascii_ws_value(item, k):
 
 def known_error_retry_no_types(item, k):
     # `query error retry N backoff D` whose query succeeds on an engine that reports no column types
-    if not item["case"].startswith("update "):
+    if not (item["case"].startswith("update ") or item["case"].startswith("cliupdate ")):
         return False
     try:
         files, rest = _update_case_parts(item)
